@@ -237,3 +237,18 @@ Definition prop_rtload (input obs : val) : val :=
         tag_is (vnth 0 lv) "ok" && cids_eq (vcids (vnth 1 (vnth 0 lv))) roots &&
         blocks_eq (concat (map vblocks (vL (vnth 1 lv)))) bs in
       if chk_load (vnth 2 obs) && chk_load (vnth 3 obs) then VT "ok" else rt_fail "loadcar-read-back-differs".
+
+(* ---- kind "rtread": a damaged writer output through every reader (model = code only) ------------------
+   input  = (file whole storeid hoktab hdrtab)
+   output = (window blockreader rootreader loadslow loadfast readonly storage), as in run_rt after the file *)
+Definition run_rtread (input : val) : val :=
+  let file := vB (vnth 0 input) in
+  let hok := hok_lookup (vL (vnth 3 input)) in
+  let hdr := hdr_lookup (vL (vnth 4 input)) in
+  let q := mkq (vbool (vnth 1 input)) (vbool (vnth 2 input)) false default_maxh default_maxs 2048 codec_mh_sorted in
+  let win := rt_window hdr file in
+  let w := match win with Ok b => b | Err _ => [] end in
+  VL [v_res_bytes win; rt_blockreader hok hdr file; rt_rootreader hok hdr w; rt_load hok hdr false w;
+      rt_load hok hdr true w; rt_readonly hdr q file; rt_storage hok hdr q file].
+
+Definition prop_rtread (input obs : val) : val := VT "ok".
